@@ -145,10 +145,10 @@ def history(mon: Mon, config: dict, N: int):
     ctx = mon.ctx
     j = J.load()
     form, enc, algs, curve = config["form"], config["enc"], config["algs"], config.get("curve", "P-256")
-    name = f"{form}:{'+'.join(algs)}:{enc}" + (f":{curve}" if any(g.is_ecdh(a) for a in algs) else "")
+    name = f"{form}:{'+'.join(algs)}:{enc}" + (f":{'/'.join(config.get('curves') or [curve])}" if any(g.is_ecdh(a) for a in algs) else "")
     recs = []
     for i, a in enumerate(algs):
-        rk, sk = g.keys_for(a, enc, curve, **({"kid": f"r{i}"} if len(algs) > 1 else {}))
+        rk, sk = g.keys_for(a, enc, (config.get("curves") or [curve] * len(algs))[i], **({"kid": f"r{i}"} if len(algs) > 1 else {}))
         recs.append((a, rk, sk))
     sender = j.key(recs[0][2]) if recs[0][2] else None
     pubs = [j.key(gen.public_jwk(rk)) for _, rk, _ in recs]
@@ -367,13 +367,20 @@ def configs(tier):
     out.append({"form": "general", "enc": "A256CBC-HS512", "algs": ["A256KW", "ECDH-ES+A256KW", "A128GCMKW"], "curve": "X25519"})
     out.append({"form": "general", "enc": "XC20P", "algs": ["PBES2-HS256+A128KW", "A192KW"], "slow": True})
     out.append({"form": "flattened", "enc": "C20P", "algs": ["RSA1_5"]})
+    # several key-agreement recipients in one message: every recipient gets an ephemeral key of its own
+    out.append({"form": "general", "enc": "A128GCM", "algs": ["ECDH-ES+A128KW", "ECDH-ES+A256KW"], "curve": "P-256"})
+    out.append({"form": "general", "enc": "A128CBC-HS256", "algs": ["ECDH-ES+A128KW", "ECDH-ES+A128KW"], "curve": "X25519"})
+    out.append({"form": "general", "enc": "A256GCM", "algs": ["ECDH-ES+A128KW", "ECDH-ES+A192KW", "ECDH-ES+A128KW"], "curves": ["P-256", "P-384", "P-256"]})
+    out.append({"form": "general", "enc": "A128CBC-HS256", "algs": ["ECDH-1PU+A128KW", "ECDH-1PU+A128KW"], "curve": "P-256"})
+    out.append({"form": "general", "enc": "A192GCM", "algs": ["A128GCMKW", "A128GCMKW", "PBES2-HS256+A128KW"], "slow": True})
     out.append({"form": "flattened", "enc": "A192GCM", "algs": ["RSA-OAEP-256"]})
     return out
 
 
 COMMON = [{"form": "compact", "enc": "A128GCM", "algs": ["A128KW"]}, {"form": "compact", "enc": "A128CBC-HS256", "algs": ["ECDH-ES"], "curve": "P-256"},
           {"form": "compact", "enc": "A256GCM", "algs": ["A256GCMKW"]}, {"form": "compact", "enc": "A128GCM", "algs": ["PBES2-HS256+A128KW"]},
-          {"form": "compact", "enc": "XC20P", "algs": ["ECDH-ES+A128KW"], "curve": "X25519"}, {"form": "general", "enc": "A192CBC-HS384", "algs": ["A192KW", "A128KW"]}]
+          {"form": "compact", "enc": "XC20P", "algs": ["ECDH-ES+A128KW"], "curve": "X25519"}, {"form": "general", "enc": "A192CBC-HS384", "algs": ["A192KW", "A128KW"]},
+          {"form": "general", "enc": "A128GCM", "algs": ["ECDH-ES+A128KW", "A128KW", "ECDH-ES+A128KW"], "curve": "X25519"}]
 
 
 def run_shard(ctx):
